@@ -485,6 +485,22 @@ pub fn styles_agree<I: Iterator, T: PartialEq + Clone>(mk: &dyn Fn() -> I, sig: 
         ok &= rest == base[k..].to_vec();
     }
     ok &= mk().nth(n).is_none() && mk().nth(n + 1).is_none() && mk().skip(n).next().is_none();
+    // a partly consumed iterator: size_hint brackets what is left, count() returns it
+    for k in 0..=n.min(4) {
+        let mut it = mk();
+        for _ in 0..k {
+            it.next();
+        }
+        let (lo, hi) = it.size_hint();
+        ok &= lo <= n - k && hi.map_or(true, |h| h >= n - k);
+        ok &= it.count() == n - k;
+    }
+    {
+        // after the end: still nothing left according to size_hint's lower bound
+        let mut it = mk();
+        while it.next().is_some() {}
+        ok &= it.size_hint().0 == 0;
+    }
     if n >= 2 {
         ok &= mk().step_by(2).map(|x| sig(x)).collect::<Vec<T>>() == base.iter().step_by(2).cloned().collect::<Vec<T>>();
         let mut it = mk();
